@@ -102,7 +102,7 @@ CHECKS.update({
 CHECKS.update({
     "C14": ("exploration",
             "model-based property testing through the real server binary (reference count per tenant, admission oracle at the boundary) + racing client pairs followed by an admission probe",
-            "Part sequence: one tenant with limit 3..6; generated Insert (new/existing/invalid), BulkInsert and BulkLoadHnsw (duplicates, existing+new, invalid items), Delete of present/absent ids, BatchDelete by ids (duplicates, foreign ids) and by filter, FlushHotTier, SIGTERM and SIGKILL restarts. After EVERY RPC: admission outcome vs model count, BulkQuery census == model, /usage vector_count == live count; at the end fill to the limit (each insert must be admitted) and one more must be RESOURCE_EXHAUSTED, so a drifted counter is visible through admission alone. Part race: two real clients race insert||delete, overwrite||batch-delete, bulk-insert||delete on the same ids for 150-650 rounds, then census + the same final probe.",
+            "Part sequence: one tenant with limit 3..6; generated Insert (new/existing/invalid), BulkInsert and BulkLoadHnsw (duplicates, existing+new, invalid items), Delete of present/absent ids, BatchDelete by ids (duplicates, foreign ids) and by filter, FlushHotTier, SIGTERM and SIGKILL restarts. After EVERY RPC: admission outcome vs model count, BulkQuery census == model, /usage vector_count == live count; at the end fill to the limit (each insert must be admitted) and one more must be RESOURCE_EXHAUSTED, so a drifted counter is visible through admission alone. Part race: two real clients race insert||delete, overwrite||batch-delete (by ids and by filter), bulk-insert||delete on the same ids for 150-650 rounds, then census + the same final probe.",
             "The race part runs under the OS scheduler: a clean pass there is weak evidence (it found C14-F1 within seconds, now fixed and kept as a regression replay). After SIGKILL /usage is not judged (persisted periodically). A BulkLoadHnsw refused only because invalid items were counted in its reservation is excluded (counted).",
             "DESIGN.md §3 C14"),
 })
